@@ -251,6 +251,31 @@ def _noop_reason(cname, kw, dlabel):
     return None
 
 
+def rule_decl_siblings(cx, rid):
+    """sibling cross-check: the declaration regexes of all device kinds are one pattern instantiated with the class name"""
+    import re as _re
+    pm = mod(PARSER)
+    r = cx.rule(rid, "the device-declaration regexes (RE_*_DECL) are the same pattern for every device kind up to the class name: a declaration form accepted for one kind (nested parentheses, keyword arguments, spacing) is accepted for all, so no kind's declarations fall through to the generic assignment arm and vanish as devices", floor=8)
+    pats = {}
+    for name, node in pm.consts.items():
+        if _re.fullmatch(r"RE_\w+_DECL", name):
+            v = lit.try_ev(node, pm)
+            if isinstance(v, lit.Regex):
+                m_ = _re.search(r"=\\s\*([A-Za-z_]\w*)\\s\*\\\(", v.pattern)
+                cls_ = m_.group(1) if m_ else None
+                shape = v.pattern.replace(cls_, "@", 1) if cls_ else v.pattern
+                pats[name] = (shape, cls_, node.lineno, v.flags_src)
+    if len(pats) < 8:
+        raise AnalysisError(f"only {len(pats)} declaration regexes recognised (confirmed: 10)")
+    shapes = {}
+    for name, (shape, cls_, ln, fl) in pats.items():
+        shapes.setdefault((shape, fl), []).append(name)
+    major = max(shapes, key=lambda k: len(shapes[k]))
+    for name, (shape, cls_, ln, fl) in sorted(pats.items()):
+        r.check((shape, fl) == major, f"{name}/same-shape-as-siblings", (pm.rel, ln), f"{name} is `{shape}` while {len(shapes[major])} sibling declaration regexes are `{major[0]}`: declarations of {cls_} are recognised under different conditions than those of the other devices", sample=name)
+    return r
+
+
 def rule_emit(cx, rid):
     """the emitter half of "no statement disappears": every IR statement contributes text, control flow keeps its header"""
     from . import c06
@@ -583,6 +608,7 @@ def run(cx):
 
     # ---- C07-EMIT ----------------------------------------------------------------------------
     rule_emit(cx, "C07-EMIT")
+    rule_decl_siblings(cx, "C07-DECL-SIBLINGS")
 
     # ---- C07-ARM-SHADOW ----------------------------------------------------------------------
     r = cx.rule("C07-ARM-SHADOW", "arms whose regexes accept the same method call are ordered guarded-first: an unguarded arm never precedes a guarded arm for the same `.method(`", floor=25)
